@@ -31,17 +31,22 @@ fn port_free(p: u16) -> bool {
     TcpListener::bind(("127.0.0.1", p)).is_ok()
 }
 
-/// three consecutive free ports starting somewhere in a range derived from `salt`
-pub fn pick_ports(salt: u64) -> Option<(u16, u16, u16)> {
-    let mut base = 20_000 + ((salt * 7919) % 20_000) as u16;
-    for _ in 0..400 {
-        if base > 60_000 {
-            base = 20_000;
-        }
+static NEXT_PORT: std::sync::Mutex<u16> = std::sync::Mutex::new(0);
+
+/// three consecutive free ports, never handed out twice by this process (a process-wide cursor that
+/// starts in a pid-derived block; the TOCTOU window between probing and the server's bind is covered by
+/// the start-up retry of the callers)
+pub fn pick_ports(_salt: u64) -> Option<(u16, u16, u16)> {
+    let mut cur = NEXT_PORT.lock().unwrap();
+    if *cur == 0 {
+        *cur = 20_000 + ((std::process::id() % 38) as u16) * 1_000;
+    }
+    for _ in 0..2000 {
+        let base = *cur;
+        *cur = if base > 58_000 { 20_000 } else { base + 3 };
         if port_free(base) && port_free(base + 1) && port_free(base + 2) {
             return Some((base, base + 1, base + 2));
         }
-        base += 3;
     }
     None
 }
@@ -223,6 +228,11 @@ impl Cluster {
     /// Quiescence rule (DESIGN E3): every live node reports Leader|Follower, the same current_leader and
     /// last_applied == the leader's last_log_index.
     pub fn wait_quiescent(&mut self, secs: u64) -> Result<u64, String> {
+        self.wait_quiescent_opt(secs, false)
+    }
+
+    /// `allow_nonvoter`: a node that has all the data but still reports NonVoter counts as caught up
+    pub fn wait_quiescent_opt(&mut self, secs: u64, allow_nonvoter: bool) -> Result<u64, String> {
         let t0 = Instant::now();
         let mut last = String::new();
         while t0.elapsed() < Duration::from_secs(secs) {
@@ -242,7 +252,7 @@ impl Cluster {
             if !ms.is_empty() && ms.iter().all(|(_, m)| m.is_some()) {
                 let vals: Vec<&Value> = ms.iter().map(|(_, m)| m.as_ref().unwrap()).collect();
                 let leader_ids: std::collections::BTreeSet<String> = vals.iter().map(|v| v["current_leader"].to_string()).collect();
-                let states_ok = vals.iter().all(|v| v["state"] == "Leader" || v["state"] == "Follower");
+                let states_ok = vals.iter().all(|v| v["state"] == "Leader" || v["state"] == "Follower" || (allow_nonvoter && v["state"] == "NonVoter"));
                 let leader = vals.iter().find(|v| v["state"] == "Leader");
                 if let (true, 1, Some(l)) = (states_ok, leader_ids.len(), leader) {
                     if !leader_ids.contains("null") && leader_ids.contains(&l["id"].to_string()) {
@@ -262,13 +272,17 @@ impl Cluster {
     /// catching a lagging follower up until it appends again (DESIGN F10 note), so the harness keeps a
     /// trickle of client writes going, as any live deployment has
     pub fn wait_quiescent_nudged(&mut self, secs: u64, via: usize) -> Result<u64, String> {
+        self.wait_quiescent_nudged_opt(secs, via, false)
+    }
+
+    pub fn wait_quiescent_nudged_opt(&mut self, secs: u64, via: usize, allow_nonvoter: bool) -> Result<u64, String> {
         let t0 = Instant::now();
         let mut n = 0u32;
         let mut last = String::new();
         while t0.elapsed() < Duration::from_secs(secs) {
             n += 1;
             let _ = self.publish(via, "", "DEFAULT_GROUP", "zz-nudge", &format!("n{}", n));
-            match self.wait_quiescent(2) {
+            match self.wait_quiescent_opt(2, allow_nonvoter) {
                 Ok(v) => return Ok(v),
                 Err(e) => last = e,
             }
